@@ -56,6 +56,9 @@ LEXEMES = collections.OrderedDict([
     ('double-quoted', (r'"[^"\\\r\n]*"', DELIM_AFTER_VALUE + ':', 't_STRING')),
     ('single-quoted', (r"'[^'\\\r\n]*'", DELIM_AFTER_VALUE + ':', 't_STRING')),
     ('quoted-with-escapes', (r'"([^"\\\r\n]|\\["\\nt\'])*"', DELIM_AFTER_VALUE, 't_STRING')),
+    # characters outside ASCII (Latin-1 and beyond) together with an escape sequence, in either order
+    ('quoted-nonascii-then-escape', (r'"[^"\\\r\n]*[\u00a1-\u024f][^"\\\r\n]*\\["\\nt\'][^"\\\r\n]*"', DELIM_AFTER_VALUE, 't_STRING')),
+    ('quoted-escape-then-nonascii', (r"'[^'\\\r\n]*\\['\\nt\"][^'\\\r\n]*[\u00a1-\u024f][^'\\\r\n]*'", DELIM_AFTER_VALUE, 't_STRING')),
     ('comment', (r'#[^\r\n]*', '\r\n', 't_ignore_COMMENT')),
     ('line-break', (r'[\r\n]+', 'A"(#', 't_newline')),
     ('colon', (r':', ' a"1[', 't_COLON')), ('comma', (r',', ' a"1[\n)', 't_COMMA')), ('equal', (r'=', ' a"1[', 't_EQUAL')),
@@ -84,7 +87,29 @@ def lemma_harness(ctx, cfg):
     obs.append((lab, good))
     groups[lab] = 'lexeme ' + name
 
+    # the token VALUE (decoding happens in C: encode/decode, int(), float()) is decided on solver-chosen members of the class:
+    # up to WITNESSES distinct models of the class constraints are lexed by the real lexer and compared with the written content
+    wl = 'the real lexer yields the written content for solver-chosen %s lexemes' % name
+    failing = []
+    ws = z3.Solver()
+    ws.set('timeout', 20000)
+    ws.add(z3.InRe(w, lexenc.rx(pat)), z3.Length(w) <= cfg['maxlen'], rest == z3.StringVal(follow[0]))
+    for _ in range(cfg.get('witnesses', 4)):
+        if str(ws.check()) != 'sat':
+            break
+        wm = ws.model()
+        rec_w = {'kind': 'lemma', 'lexeme': name, 'w': symx.model_value(wm, w), 'rest': follow[0], 'rule': rule}
+        bad, why = confirm(rec_w, wl)
+        if bad:
+            failing.append(rec_w)
+            break
+        ws.add(w != wm.eval(w, model_completion=True))
+    obs.append((wl, z3.BoolVal(not failing)))
+    groups[wl] = 'lexeme ' + name + ' value'
+
     def conc(m, label):
+        if label == wl and failing:
+            return failing[0]
         return {'kind': 'lemma', 'lexeme': name, 'w': symx.model_value(m, w), 'rest': symx.model_value(m, rest), 'rule': rule}
 
     def path_check(m):
